@@ -9,6 +9,7 @@ import (
 	"os"
 	"runtime/debug"
 	"strconv"
+	"strings"
 	"time"
 
 	"verifcheck/an"
@@ -22,7 +23,37 @@ func main() {
 	verif := flag.String("verif", "/verif", "verification root (evidence, known findings)")
 	replay := flag.String("replay", "", "replay file (re-evaluates the property; the file names the construct)")
 	list := flag.Bool("list", false, "print the armed properties with their level texts as JSON")
+	callers := flag.String("callers", "", "debug: print the static callers of an object spec (comma separated)")
+	writers := flag.String("writers", "", "debug: print the stores to a field spec (comma separated)")
 	flag.Parse()
+	if *callers != "" || *writers != "" {
+		prog, err := an.Load(*repo)
+		if err != nil {
+			fmt.Println(err)
+			os.Exit(2)
+		}
+		for _, sp := range strings.Split(*callers, ",") {
+			if sp == "" {
+				continue
+			}
+			o := prog.Obj(sp)
+			fmt.Println("== callers of", sp, o)
+			for _, cs := range prog.CallsTo(o) {
+				fmt.Printf("  %-70s %s\n", an.CallerName(cs.Caller), prog.Pos(cs.Call.Pos()))
+			}
+		}
+		for _, sp := range strings.Split(*writers, ",") {
+			if sp == "" {
+				continue
+			}
+			o := prog.Obj(sp)
+			fmt.Println("== stores to", sp, o)
+			for _, cs := range prog.StoresTo(o) {
+				fmt.Printf("  %-70s %s %s\n", an.CallerName(cs.Caller), cs.How, prog.Pos(cs.Node.Pos()))
+			}
+		}
+		return
+	}
 	if *list {
 		out := map[string]any{}
 		for id, p := range props.All {
